@@ -630,6 +630,98 @@ def split_decl(toks):
 
 
 # ---------------------------------------------------------------------------------------------
+# helper functions of the form `T f(params) { [using ...;] return EXPR; }` are inlined (second round)
+
+def substitute(e, env):
+    if not isinstance(e, tuple):
+        return e
+    if e[0] == "name" and e[1] in env:
+        return ("paren", env[e[1]])
+    if e[0] == "lambda":
+        return e
+    out = []
+    for x in e:
+        if isinstance(x, tuple):
+            out.append(substitute(x, env))
+        elif isinstance(x, list):
+            out.append([substitute(y, env) if isinstance(y, tuple) else y for y in x])
+        else:
+            out.append(x)
+    return tuple(out)
+
+
+def single_return_helpers(toks):
+    """{name: (param names, expr tree)} for namespace-level functions whose body is exactly one return statement."""
+    out = {}
+    for ns, name, header, body, pidx in functions(toks):
+        if name is None or pidx is None:
+            continue
+        w = Walker()
+        try:
+            w.block(body, ())
+        except (TranslateError, IndexError):
+            continue
+        stmts = [st for st in w.stmts]
+        if len(stmts) != 1 or stmts[0][0] != "return":
+            continue
+        try:
+            e = parse_expr(list(stmts[0][1]))
+        except ParseFail:
+            continue
+        try:
+            close = match_close(header, pidx, "(", ")")
+        except TranslateError:
+            continue
+        params, acc, depth = [], [], 0
+        for t in header[pidx + 1:close]:
+            if t[1] in "(<[{" and t[0] == "op":
+                depth += 1
+            elif t[1] in ")>]}" and t[0] == "op":
+                depth -= 1
+            if t[1] == "," and depth == 0:
+                params.append(acc)
+                acc = []
+            else:
+                acc.append(t)
+        if acc:
+            params.append(acc)
+        names = [[t[1] for t in pr if t[0] == "id"][-1] for pr in params if any(t[0] == "id" for t in pr)]
+        if name in out:
+            out[name] = None          # overloaded: do not inline
+        else:
+            out[name] = (names, e)
+    return {k: v for k, v in out.items() if v is not None}
+
+
+def measure_of(e):
+    e = strip_paren(e)
+    if e[0] == "name" and re.match(r"(M|Opm::UnitSystem::measure|UnitSystem::measure)::\w+$", e[1]):
+        return e[1].split("::")[-1]
+    return None
+
+
+def from_si_chain(e):
+    """X.from_si(M::m1, X.from_si(M::m2, … inner)) -> ([m1, m2, …], inner) | None"""
+    e = strip_paren(e)
+    if e[0] == "call" and e[1][0] == "member" and e[1][2] == "from_si" and len(e[2]) == 2 and measure_of(e[2][0]):
+        rest = from_si_chain(e[2][1])
+        if rest:
+            return [measure_of(e[2][0])] + rest[0], rest[1]
+        return [measure_of(e[2][0])], e[2][1]
+    return None
+
+
+def to_si_chain(e):
+    e = strip_paren(e)
+    if e[0] == "call" and e[1][0] == "member" and e[1][2] == "to_si" and len(e[2]) == 2 and measure_of(e[2][0]):
+        rest = to_si_chain(e[2][1])
+        if rest:
+            return [measure_of(e[2][0])] + rest[0], rest[1]
+        return [measure_of(e[2][0])], e[2][1]
+    return None
+
+
+# ---------------------------------------------------------------------------------------------
 # writer side
 
 ARRAY_OF_NS = {"IWell": "IWEL", "SWell": "SWEL", "XWell": "XWEL", "ZWell": "ZWEL",
@@ -651,6 +743,8 @@ def is_simple_source(e):
         return True
     if k == "member":
         return e[2] not in ("from_si", "to_si") and is_simple_source(e[1])
+    if k == "paren":
+        return is_simple_source(e[1])
     if k == "call":
         return is_simple_source(e[1]) and all(no_window(a) for a in e[2])
     if k == "unary" and e[1] == "*":
@@ -704,6 +798,8 @@ class WriterTranslator:
         self.enc_tables = {}     # fn -> [(label, value)]
         self.swprop_params = []  # functions taking `swprop` as a parameter
         self.swprop_lambda_ok = False
+        self.helpers = {}        # single-return helper functions of the file (inlined)
+        self.depth = 0
 
     # -- enum valued helper functions:  switch (x) { case A: return V; ... }
     def try_enc_table(self, name, body):
@@ -834,6 +930,19 @@ class WriterTranslator:
                 return f".cond ({pa}) {pb[7:]} true", sa
             if simple(pb) and pa.startswith(".const "):
                 return f".cond ({pb}) {pa[7:]} false", sb
+        ch = from_si_chain(e)
+        if ch and len(ch[0]) >= 2 and is_simple_source(ch[1]):
+            return ".fromSIChain [" + ", ".join(lean_str(m) for m in ch[0]) + "]", raw(strip_paren(ch[1]))
+        if e[0] == "call" and e[1][0] == "name" and e[1][1] in self.helpers and self.depth < 2:
+            params, body = self.helpers[e[1][1]]
+            if len(params) == len(e[2]):
+                self.depth += 1
+                try:
+                    pre, src = self.classify(substitute(body, dict(zip(params, e[2]))), aliases, refs, lambdas, ty)
+                finally:
+                    self.depth -= 1
+                if not pre.startswith(".opaque"):
+                    return pre, src
         return f".opaque {lean_str(raw(rhs))}", ""
 
     @staticmethod
@@ -976,6 +1085,8 @@ class ReaderTranslator:
         self.res, self.file_aliases = res, file_aliases
         self.entries = []
         self.decoders = {}
+        self.helpers = {}
+        self.depth = 0
 
     def find_refs(self, e, aliases, acc):
         """collect all ARR[IDX] nodes below e"""
@@ -1093,6 +1204,25 @@ class ReaderTranslator:
             r = self.ref(e[2][0], aliases)
             if r and r[1] is not None:
                 return [(r, f".decode {lean_str(e[1][1])}")]
+        narrow = False
+        inner = e
+        if e[0] == "call" and e[1] == ("name", "as_float") and len(e[2]) == 1:
+            narrow, inner = True, strip_paren(e[2][0])
+        ch = to_si_chain(inner)
+        if ch and len(ch[0]) >= 2:
+            r = self.ref(ch[1], aliases)
+            if r and r[1] is not None:
+                return [(r, ".toSIChain [" + ", ".join(lean_str(m) for m in ch[0]) + "] " + ("true" if narrow else "false"))]
+        if e[0] == "call" and e[1][0] == "name" and e[1][1] in self.helpers and self.depth < 2:
+            params, body = self.helpers[e[1][1]]
+            if len(params) == len(e[2]):
+                self.depth += 1
+                try:
+                    got = self.classify(substitute(body, dict(zip(params, e[2]))), aliases)
+                finally:
+                    self.depth -= 1
+                if len(got) == 1 and not got[0][1].startswith(".opaque"):
+                    return got
         acc = []
         self.find_refs(e, aliases, acc)
         out = []
@@ -1453,6 +1583,7 @@ def translate(repo):
         path, toks = load(repo, rel)
         sources.append(path)
         wt = WriterTranslator(res, file_level_aliases(toks), rel)
+        wt.helpers = single_return_helpers(toks)
         for ns, name, header, body, pidx in functions(toks):
             wt.function(ns, name, body, header)
         if wt.swprop_params and not wt.swprop_lambda_ok:
@@ -1471,6 +1602,7 @@ def translate(repo):
         sources.append(path)
         decoders.update(parse_decoders(toks))
         rt = ReaderTranslator(res, file_level_aliases(toks))
+        rt.helpers = single_return_helpers(toks)
         rt.constructor(toks, cname, dict(rt.file_aliases, **collect_aliases(toks)), prefix)
         hpath, htoks = load(repo, rel[:-4] + ".hpp")
         sources.append(hpath)
